@@ -24,4 +24,40 @@ def classify(kind, payload, r, m):
     s = m.get("S", "")
     if kind == "bool" and "[negatively-oriented-output]" in s:
         return "bool-hole-as-polygon"
+    # the same Clipper weakness (coincident collinear edges of different input polygons) also shows as a result contour that
+    # overlaps itself: recorded for operands made of axis-parallel rectangles only - the class the pinned campaign enumerates
+    # input by input, so that a regression in this class is still reported there
+    if kind == "bool" and (" membership " in s or " overlapping-outputs " in s) and _all_rectangles(payload):
+        return "bool-touching-rectangles"
     return _classify(kind, payload, r, m)
+
+
+def _all_rectangles(payload):
+    try:
+        t = payload.split()
+        i = t.index("A") + 1
+        seen = 0
+        for grp in ("A", "B"):
+            n = int(t[i], 16)
+            i += 1
+            for _ in range(n):
+                m_ = int(t[i], 16)
+                i += 1
+                pts = []
+                for _k in range(m_):
+                    pts.append((int(t[i], 16), int(t[i + 1], 16)))
+                    i += 2
+                if m_ != 4:
+                    return False
+                for a in range(4):
+                    (x0, y0), (x1, y1) = pts[a], pts[(a + 1) % 4]
+                    if x0 != x1 and y0 != y1:
+                        return False
+                seen += 1
+            if grp == "A":
+                if t[i] != "B":
+                    return False
+                i += 1
+        return seen >= 2
+    except Exception:
+        return False
